@@ -447,6 +447,9 @@ fn impl_info<'tcx>(tcx: TyCtxt<'tcx>, impl_did: DefId) -> J {
     if let Some(a) = ty_adt(tcx, self_ty) {
         o.push(("self_adt", J::s(a)));
     }
+    if let TyKind::Adt(ad, _) = self_ty.peel_refs().kind() {
+        o.push(("self_adt_id", J::s(def_id_str(tcx, ad.did()))));
+    }
     if tcx.impl_opt_trait_ref(impl_did).is_some() {
         let tr = tcx.impl_trait_ref(impl_did).instantiate_identity().skip_norm_wip();
         o.push(("trait", J::s(def_path(tcx, tr.def_id))));
@@ -554,6 +557,18 @@ fn terminator_json<'tcx>(tcx: TyCtxt<'tcx>, owner: LocalDefId, body: &Body<'tcx>
                 o.push(("callee_item", item_container(tcx, did)));
                 let gs: Vec<J> = gargs.iter().map(|a| J::s(ty::print::with_no_trimmed_paths!(format!("{}", a)))).collect();
                 o.push(("gargs", J::Arr(gs)));
+                // canonical ids of the ADTs mentioned in the generic arguments (pretty names can collide)
+                let mut ga: Vec<String> = vec![];
+                for a in gargs.iter() {
+                    for t in a.walk() {
+                        if let Some(t) = t.as_type() {
+                            if let TyKind::Adt(ad, _) = t.kind() {
+                                ga.push(def_id_str(tcx, ad.did()));
+                            }
+                        }
+                    }
+                }
+                o.push(("garg_adt_ids", J::Arr(ga.into_iter().map(J::s).collect())));
                 let typing_env = ty::TypingEnv::post_analysis(tcx, odid);
                 match ty::Instance::try_resolve(tcx, typing_env, did, gargs) {
                     Ok(Some(inst)) => {
